@@ -87,18 +87,30 @@ class Deviant(object):
             for r in self._orig_send(msg, *a, **kw):
                 yield r
             return
-        for ct, data in rep:
+        for item in rep:
+            ct, data = item[0], item[1]
             self.emitted.append((ct, bytes(data)))
+            # a third element "wire": bytes that appear on the wire only,
+            # the sender's own transcript does not cover them
+            keep = self.conn._handshake_hash.copy() \
+                if len(item) > 2 and item[2] == "wire" else None
             for r in self._orig_send(RawMsg(ct, data), *a, **kw):
                 yield r
+            if keep is not None:
+                self.conn._handshake_hash = keep
 
     def _queue(self, msg):
         rep = self._transform(msg)
         if rep is None:
             self.emitted.append((msg.contentType, bytes(msg.write())))
             return self._orig_queue(msg)
-        for ct, data in rep:
+        for item in rep:
+            ct, data = item[0], item[1]
             if ct != msg.contentType:
                 continue        # cannot mix content types in one flight
             self.emitted.append((ct, bytes(data)))
+            keep = self.conn._handshake_hash.copy() \
+                if len(item) > 2 and item[2] == "wire" else None
             self._orig_queue(RawMsg(ct, data))
+            if keep is not None:
+                self.conn._handshake_hash = keep
